@@ -175,13 +175,54 @@ def _blob(s):
 
 def _jsonable(v):
     try:
-        return json.loads(json.dumps(v, sort_keys=True, default=repr))
+        try:
+            text = json.dumps(v, sort_keys=True, default=repr)
+        except TypeError:                      # keys of mixed types do not sort
+            text = json.dumps(v, default=repr)
+        # reprs of objects (default=repr) carry addresses that differ from run to run
+        return json.loads(_ADDR.sub(' at 0x?', text), parse_constant=lambda c: 'const:' + c)
     except Exception:  # noqa
         return repr(v)
 
 
+def _typed(v, depth=0):
+    """type-preserving canonical form of a value as the reporter sees it: JSON would hide exactly what pickle / a
+    normalisation through JSON changes (tuple vs list, int / None / bool dict keys, float identity)"""
+    if depth > 12:
+        return ['deep']
+    if isinstance(v, tuple):
+        return ['tuple'] + [_typed(x, depth + 1) for x in v]
+    if isinstance(v, list):
+        return ['list'] + [_typed(x, depth + 1) for x in v]
+    if isinstance(v, dict):
+        return ['dict'] + sorted(([_typed(k, depth + 1), _typed(x, depth + 1)] for k, x in v.items()), key=lambda kv: json.dumps(kv[0]))
+    if isinstance(v, (set, frozenset)):
+        return [type(v).__name__] + sorted((_typed(x, depth + 1) for x in v), key=json.dumps)
+    if isinstance(v, bool) or v is None or isinstance(v, int):
+        return v
+    if isinstance(v, float):
+        return ['float', repr(v)]
+    if isinstance(v, str):
+        return v if len(v) <= 200 else _blob(v)
+    if isinstance(v, bytes):
+        return ['bytes', v.hex()[:80]]
+    return ['obj', type(v).__name__]
+
+
+_SAVE_ERR = 'values or result can not be saved'
+
+
+def _save_err_cut(text):
+    """the save error of a task whose values / result can not be stored names the reason of whichever step rejected the
+    value first (json in the main process; pickle in a worker process, /repo a38b99a): same failure, reason text cut"""
+    if isinstance(text, str) and _SAVE_ERR in text:
+        return text[:text.index(_SAVE_ERR) + len(_SAVE_ERR)] + ' <reason>'
+    return text
+
+
 def _task_data(task, fail=None):
     d = {'values': _jsonable(getattr(task, 'values', None)), 'result': _jsonable(getattr(task, 'result', None)),
+         'typed': [_typed(getattr(task, 'values', None)), _typed(getattr(task, 'result', None))],
          'executed': bool(getattr(task, 'executed', False))}
     try:
         acts = list(task.actions)
@@ -197,14 +238,20 @@ def _task_data(task, fail=None):
                 # (once per edge kind), a set in the sense of the property: compared as a sorted set
                 d['fail'] = ['UnmetDependency', sorted(set(str(getattr(fail, 'message', '')).split()))]
             else:
-                d['fail'] = [type(fail).__name__, _blob(getattr(fail, 'message', None)), _blob(fail.get_msg())]
+                d['fail'] = [type(fail).__name__, _blob(_save_err_cut(getattr(fail, 'message', None))), _blob(_save_err_cut(fail.get_msg()))]
             # everything a reporter may read on the failure object: name, the `report` flag (ConsoleReporter prints a
             # failure only if it is set), the traceback lines, and which attributes the object carries at all
             d['fail_obj'] = {'name': fail.get_name(), 'report': getattr(fail, 'report', '<missing>'),
                              'traceback': _blob(''.join(getattr(fail, 'traceback', None) or [])),
                              'attrs': sorted(k for k in vars(fail))}
+            if _SAVE_ERR in str(getattr(fail, 'message', '')):
+                # the task object of a task whose values can not be stored: a worker process can not even send them
+                # (a38b99a resets them), the serial runner leaves them on the object; nothing of it is saved (DB dump is
+                # compared) -- the in-memory leftovers of the failed task are not compared
+                for k in ('values', 'result', 'typed'):
+                    d[k] = '<not compared: save error>'
             if type(fail).__name__ != 'UnmetDependency':       # (its message is a set in arrival order, see above)
-                d['fail_obj']['repr'] = _blob(repr(fail))
+                d['fail_obj']['repr'] = _blob(_save_err_cut(repr(fail)))
         except Exception as ex:  # noqa
             d['fail'] = ['unreadable', type(ex).__name__]
     return d
@@ -300,6 +347,37 @@ def build_ns_a(case, rec):
 # family B: data pipelines
 # ======================================================================================================
 
+def _vshape(name):
+    """values an action returns that JSON (the DB) or pickle (the result queue) alters or rejects; built here because a
+    case file is JSON and can not hold them"""
+    if name == 'tuple':
+        return {'tup': (1, 2, ('x',)), 'lst': [1, [2, (3,)]]}
+    if name == 'intkey':
+        return {'ik': {3: 'x', 10: 'y'}, 'nk': {None: 'n'}, 'bk': {True: 't'}}
+    if name == 'float':
+        return {'f': 1.5, 'big': 1e300, 'neg0': -0.0, 'inf': float('inf'), 'nan': float('nan'), 'small': 5e-324}
+    if name == 'nested':
+        return {'nest': {'a': [1, (2, 3), {'b': None, 'c': [[], {}, ()]}], 'u': {'é': ['中', ('\U0001F600',)]}}}
+    if name == 'set':            # picklable, not JSON-serialisable: save_success raises after the task was executed
+        return {'s': {1, 2}}
+    if name == 'bytes':
+        return {'b': b'raw\xff'}
+    if name == 'lambda':         # not picklable (and not JSON-serialisable)
+        return {'fn': (lambda: 1)}
+    return {}
+
+
+BAD_VSHAPES = ('set', 'bytes', 'lambda')
+
+
+def b_teardown(tname, i, ret):
+    """teardown callable number i of a task (module level: picklable); records that it ran and by whom"""
+    rec = runlib._REC
+    if rec is not None:
+        rec.ev(['td', rec.tid(tname), i])
+    return ret
+
+
 def b_action(spec, idx, tname, targets, dependencies, changed, **kw):
     """python-action of family B (module level: a delayed-created task is pickled whole by JobTask)"""
     a = spec
@@ -333,6 +411,8 @@ def b_action(spec, idx, tname, targets, dependencies, changed, **kw):
     ret = a.get('ret', 'none')
     if ret == 'dict':
         v = dict(a.get('vals') or {})
+        if a.get('vshape'):
+            v.update(_vshape(a['vshape']))
         if a.get('echo_got'):
             v['got'] = _jsonable(got)
         return v
@@ -398,6 +478,9 @@ def _b_task_dict(t):
         if a['t'] == 'mkdir':
             from doit.tools import create_folder
             acts.append((create_folder, [a['path']]))
+        elif a['t'] == 'cmd' and a.get('save_out'):
+            from doit.action import CmdAction
+            acts.append(CmdAction(_cmd_of(a, t['name'], i), save_out=a['save_out']))
         elif a['t'] == 'cmd':
             acts.append(_cmd_of(a, t['name'], i))
         else:
@@ -425,9 +508,15 @@ def _b_task_dict(t):
         d['uptodate'] = upt
     if t.get('getargs'):
         d['getargs'] = {a: (src, key) for a, src, key in t['getargs']}
+    if t.get('verbosity') is not None:
+        d['verbosity'] = t['verbosity']
+    if t.get('io') is not None:
+        d['io'] = {'capture': {'none': None, 'false': False, 'true': True}[t['io']]}
+    if t.get('teardowns'):
+        d['teardown'] = [(b_teardown, [t['name'], i, ret]) for i, ret in enumerate(t['teardowns'])]
     if t.get('closures'):
         marker = object()                        # unpicklable closures on attributes that are never shipped
-        d['teardown'] = [lambda: marker and None]
+        d['teardown'] = list(d.get('teardown') or []) + [lambda: marker and None]
         d['title'] = lambda task: 'T(%s)' % task.name
         d['clean'] = [lambda: marker and None]
     return d
@@ -575,14 +664,50 @@ def gen_b(rng, runner='serial', nproc=0):
             tasks.append(_bt('concat%d' % i, 60 + i, calc_dep=['scan%d' % i], file_dep=['header.txt'], targets=['all%d.txt' % i],
                              actions=[_act(ret='dict', deps=True, cat=True, write=True, echo_got=True, vals={'c': i})],
                              task_dep=(['total'] if rng.random() < 0.3 else [])))
+    # wave 4 (#3): values that JSON / pickle alter or reject, on producers whose values are read through getargs
+    shapes = ['tuple', 'intkey', 'float', 'nested']
+    for t in tasks:
+        for a in t['actions']:
+            if a['t'] == 'py' and a.get('ret') == 'dict' and not a.get('deps') and rng.random() < 0.35:
+                a['vshape'] = rng.choice(shapes)
+    bad = None
+    if rng.random() < 0.08:
+        # a value that can not be saved (set, bytes) or not even sent through the result queue (lambda): since /repo
+        # 8fa62ea / a38b99a that is a save error of THAT task under every runner (failure, dependents unmet, nothing
+        # recorded): a plain outcome-equivalence case; --continue so that the run is complete and compared
+        bad = rng.choice(['set', 'bytes', 'lambda'])
+        tasks.append(_bt('badval', 90, actions=[_act(ret='dict', vals={'x': 1}, vshape=bad, out='badval')]))
+        tasks.append(_bt('afterbad', 91, actions=[_act(out='never')], task_dep=['badval']))
+    # (#19) per-task verbosity, io capture, save_out of cmd-actions
+    for t in tasks:
+        if t['kind'] == 'group':
+            continue
+        if rng.random() < 0.3:
+            t['verbosity'] = rng.choice([0, 1, 2])
+        if rng.random() < 0.2:
+            cmds = any(a['t'] == 'cmd' for a in t['actions'])
+            t['io'] = 'none' if cmds else rng.choice(['none', 'false', 'true'])   # capture False + cmd writes to the real fd 1
+        for k, a in enumerate(t['actions']):
+            if a['t'] == 'cmd' and not a.get('ret') and rng.random() < 0.4:
+                a['save_out'] = 'so%d' % k
+    # (#10) several teardown callables (one may fail), wildcard task_dep
+    for t in tasks:
+        if t['kind'] != 'group' and rng.random() < 0.25:
+            t['teardowns'] = [rng.choice([None, None, True, False]) for _ in range(rng.randint(1, 3))]
+    if rng.random() < 0.4:
+        pat = rng.choice(['late*', 'parts:*' if not delayed_parts else 'late*', 'no_such_*', 'p*'])
+        tasks.append(_bt('gather', 95, actions=[_act(out='gather', ret='dict', vals={'g': 1})], task_dep=[pat]))
     # stock helper actions of doit.tools shared by tasks that are ready at the same time: several independent tasks
-    # start with create_folder on the SAME missing path (nested), then write a file into it
-    if rng.random() < 0.5:
+    # start with create_folder on the SAME missing path (nested), then write a file into it.  (The gated os calls let
+    # python-actions of different threads overlap; an action that writes to sys.stdout WITHOUT capture while another
+    # thread has swapped sys.stdout is C17's open finding stdout-overlap-threads, not C08's subject: no task with
+    # an io / verbosity setting (verbosity >= 1 also writes to the shared stream) in these cases.)
+    if rng.random() < 0.5 and not any(t.get('io') is not None or t.get('verbosity') is not None for t in tasks):
         path = rng.choice(['build', 'build/sub', 'out/a/b'])
         for i in range(rng.randint(2, 3)):
             tasks.append(_bt('mk%d' % i, 70 + i, actions=[_act(t='mkdir', path=path),
                                                          _act(files=['%s/mk%d.txt' % (path, i)], out='mk%d' % i)]))
-    cont = rng.random() < 0.6
+    cont = rng.random() < 0.6 or bad is not None
     if cont:
         # failures of every kind (only with --continue: otherwise the run is cut short and nothing is compared)
         kinds = ['false', 'raise', 'failobj', 'errobj', 'cmdfail', 'cmderr', 'failobj_silent', 'errobj_silent', 'errobj_wrapped',
@@ -608,7 +733,7 @@ def gen_b(rng, runner='serial', nproc=0):
         rng.shuffle(keys)
     tasks = [t for k in keys for t in units[k]]
     return {'fam': 'B', 'tasks': tasks, 'sel': None, 'cont': cont, 'always': False, 'runner': runner, 'nproc': nproc,
-            'prerun': rng.random() < 0.35, 'inputs': inputs}
+            'prerun': rng.random() < 0.35 and bad is None, 'inputs': inputs, 'badvalue': bad}
 
 
 # ======================================================================================================
@@ -669,7 +794,7 @@ def run_one(case):
 
 
 def summary(case, obs):
-    reports, data, snap = {}, {}, None
+    reports, data, snap, tds = {}, {}, None, {}
     failed = False
     for e in obs.get('raw') or []:
         k = e[0]
@@ -682,12 +807,17 @@ def summary(case, obs):
             data.setdefault(str(e[1]), e[2])
         elif k == 'snapshot':
             snap = e[1]
+        elif k == 'td':
+            tds.setdefault(str(e[1]), []).append(e[2])
+        elif k == 'cleanup_error':
+            tds['cleanup_errors'] = tds.get('cleanup_errors', 0) + 1
     complete = obs['err'] is None and any(e[0] == 'complete' for e in obs['trace']) and (bool(case.get('cont')) or not failed)
     return {'reports': reports, 'data': data, 'db': (snap or {}).get('db'), 'files': (snap or {}).get('files'),
-            'exit': obs['exit'], 'err': obs['err'], 'complete': complete}
+            'exit': obs['exit'], 'err': obs['err'], 'complete': complete, 'teardowns': tds}
 
 
-PARTS = ('reports', 'exit', 'err', 'data', 'db', 'files')
+# 'teardowns': per task the indices of its teardown callables in the order they ran (+ number of cleanup errors)
+PARTS = ('reports', 'exit', 'err', 'data', 'db', 'files', 'teardowns')
 
 
 def _leaf_diff(a, b, path, out):
@@ -766,7 +896,7 @@ def sig_premature_group_status(w):
     serial runner when X is defined before the group), compares the saved dict of sub-task results with the result of
     the placeholder (None) and re-executes X, the other run finds X up-to-date.  Recognised: the case has a pre-run, the
     ONLY differences are the report of such consumers X (skip_uptodate on one side, success on the other) and the
-    reporter-visible data of that execution; DB dump, files, exit code and every other task agree."""
+    reporter-visible data (and teardowns) of that execution; DB dump, files, exit code and every other task agree."""
     case = w.get('case') or {}
     if case.get('fam') != 'B' or not case.get('prerun') or not w.get('diff'):
         return False
@@ -781,7 +911,17 @@ def sig_premature_group_status(w):
             reexec.add(d[1])
     if not reexec:
         return False
-    return all(d[0] == 'reports' or (d[0] == 'data' and d[1] in reexec) for d in w['diff'])
+    return all(d[0] == 'reports' or (d[0] in ('data', 'teardowns') and d[1] in reexec)
+               or (d[0] == 'teardowns' and d[1] == 'cleanup_errors') for d in w['diff'])
+
+
+def sig_unpicklable_result_hangs(w):
+    """FIXED finding unpicklable-result-hangs (/repo a38b99a; not a signature any more, only labels a regression in the
+    distribution): an action returns a value pickle rejects (vshape 'lambda') and the process runner never ends"""
+    case = w.get('case') or {}
+    var = w.get('variant') or {}
+    return bool(case.get('badvalue') == 'lambda' and var.get('runner') == 'process'
+                and (w.get('parallel') or {}).get('err') == 'deadlock')
 
 
 def variant(case, runner, nproc, policy=None, schedule=None):
@@ -838,7 +978,7 @@ def den_request(case, runs):
 
 # ---- one group: serial reference + variants ------------------------------------------------------------
 
-def eval_group(case, variants, st, shrink_s=8.0, accept=True):
+def eval_group(case, variants, st, shrink_s=8.0, accept=True, den=True):
     """run the serial reference and every variant, apply K1, K2, P.  Returns seconds spent shrinking."""
     fam = case.get('fam', 'A')
     base = variant(case, 'serial', 0)
@@ -855,10 +995,13 @@ def eval_group(case, variants, st, shrink_s=8.0, accept=True):
             v['schedule'] = o['schedule']
         runs.append((v, o, summary(v, o)))
     # ---- Lean: denotation + pair monitor; M1 acceptance
-    try:
-        ans = common.drv_batch([den_request(base, [(o, s) for _, o, s in runs])])[0]
-    except Exception as ex:  # noqa
-        ans = {'error': str(ex)[:200]}
+    if not den:
+        ans = {'error': 'not asked (scale)'}
+    else:
+        try:
+            ans = common.drv_batch([den_request(base, [(o, s) for _, o, s in runs])])[0]
+        except Exception as ex:  # noqa
+            ans = {'error': str(ex)[:200]}
     acc = [None] * len(runs)
     if fam == 'A' and accept:
         acc = runlib.ask_model([(c, o) for c, o, _ in runs])
@@ -881,7 +1024,8 @@ def eval_group(case, variants, st, shrink_s=8.0, accept=True):
             st.count('err:%s' % o['err'])
     _count_case(st, base, ref)
     if 'error' in ans:
-        st.count('driver_unavailable')
+        if den:
+            st.count('driver_unavailable')
         ans = None
     # K1: every run is a trace of M1
     for (c, o, s), a in zip(runs, acc):
@@ -927,6 +1071,8 @@ def eval_group(case, variants, st, shrink_s=8.0, accept=True):
         st.count('pair_skipped_reference_cut_short')
         return spent
     for i, (c, o, s) in enumerate(runs[1:]):
+        if case.get('badvalue'):
+            st.count('pair_checked_badvalue:%s:%s' % (case['badvalue'], c['runner']))
         st.count('pair_checked')
         st.count('pair_checked:%s' % c['runner'])
         d = diff_summaries(ref, s)
@@ -941,6 +1087,8 @@ def eval_group(case, variants, st, shrink_s=8.0, accept=True):
                                                  'schedule': o.get('schedule')},
                'diff': d[:12], 'serial': {'exit': ref['exit'], 'reports': ref['reports']},
                'parallel': {'exit': s['exit'], 'err': o['err'], 'reports': s['reports'], 'stderr': o.get('stderr', '')[-300:]}}
+        if sig_unpicklable_result_hangs(wit):
+            st.count('regression:unpicklable-result-hangs')
         if sig_premature_group_status(wit):
             st.count('known:premature-status-delayed-group')
         elif sig_stale_group_result(wit):
@@ -993,6 +1141,20 @@ def _count_case(st, case, ref):
                         st.count('B:calc_result:task_dep')
             if t['closures']:
                 st.count('B:closures')
+            if t.get('verbosity') is not None:
+                st.count('B:verbosity:%d' % t['verbosity'])
+            if t.get('io') is not None:
+                st.count('B:io_capture:%s' % t['io'])
+            if t.get('teardowns'):
+                st.count('B:teardowns:%d%s' % (len(t['teardowns']), ':one_fails' if False in t['teardowns'] else ''))
+            for pat in t['task_dep']:
+                if '*' in pat:
+                    st.count('B:wild_task_dep:%s' % pat)
+            for a in t['actions']:
+                if a.get('vshape'):
+                    st.count('B:vshape:%s' % a['vshape'])
+                if a.get('save_out'):
+                    st.count('B:save_out')
     else:
         runlib.count_case(st, case, None)
 
@@ -1385,6 +1547,50 @@ def _data_intact_py(c, got):
 # ======================================================================================================
 
 # calc_dep edges are inside the theorems (C08_confluence) and the denotation monitor (K2c) since wave 3
+# ======================================================================================================
+# family S: scale (audit #20) -- big structured graphs in runlib's case format (so K1 / K2 / K2c / P all apply)
+# ======================================================================================================
+
+def gen_scale(rng, n_lo, n_hi):
+    """chain (deep task_dep recursion of the dispatcher), fan-in (one task waits for w others), fan-out (w tasks wake
+    on one), comb (a chain with a leaf at every link) and mixed setup edges; a few failures / up-to-date / ignored tasks,
+    --continue.  Tree-shaped on purpose: the static denotation denF is evaluated without memoisation."""
+    n = rng.randint(n_lo, n_hi)
+    shape = rng.choice(['chain', 'fanin', 'fanout', 'comb', 'chain_setup'])
+    ts = [runlib._new_task('t%d' % i) for i in range(n)]
+    if shape in ('chain', 'chain_setup'):
+        for i in range(1, n):
+            ts[i]['setup' if (shape == 'chain_setup' and i % 3 == 0) else 'task_dep'].append('t%d' % (i - 1))
+    elif shape == 'fanin':
+        ts[n - 1]['task_dep'] = ['t%d' % i for i in range(n - 1)]
+    elif shape == 'fanout':
+        for i in range(1, n):
+            ts[i]['task_dep'].append('t0')
+    else:
+        for i in range(2, n, 2):
+            ts[i]['task_dep'].append('t%d' % (i - 2))
+            ts[i]['task_dep'].append('t%d' % (i - 1))
+    for t in ts:
+        r = rng.random()
+        if r < 0.02:
+            t['outcome'] = 'failed'
+        elif r < 0.03:
+            t['outcome'] = 'error'
+            t['how'] = 'raise'
+        elif r < 0.08:
+            t['status'] = 'utd'
+        elif r < 0.09:
+            t['ignored'] = True
+    if rng.random() < 0.5:
+        order = list(range(n))
+        rng.shuffle(order)
+        ts = [ts[i] for i in order]
+    sel = None
+    if shape in ('chain', 'chain_setup', 'comb') and rng.random() < 0.5:
+        sel = ['t%d' % (n - 1 if shape != 'comb' else (n - 1) // 2 * 2)]      # the dispatcher reaches the rest by recursion
+    return {'fam': 'A', 'scale': shape, 'tasks': ts, 'sel': sel, 'cont': True, 'always': False, 'runner': 'serial', 'nproc': 0}
+
+
 A_KNOBS = {'n_max': 8, 'p_dup_sel': 0.0, 'p_cont': 0.6, 'weights': {'calc_dep': 9}}
 
 
@@ -1437,6 +1643,23 @@ def eval_batch(batch):
         if fam == 'A':
             c = runlib.gen_case(rng, runner='serial', **A_KNOBS)
             c['fam'] = 'A'
+        elif fam == 'S':
+            lo, hi = batch.get('scale', (50, 80))
+            c = gen_scale(rng, lo, hi)
+            c['seed'] = seed
+            vs = []
+            for kind in kinds:
+                k = rng.randint(2, 8)
+                vs.append(variant(c, kind, k, runlib.gen_policy(rng, k) if kind == 'thread' else {'kind': 'seeded', 'seed': rng.randrange(1 << 30)}))
+            st.count('S:shape:%s' % c['scale'])
+            st.count('S:tasks:%d+' % (len(c['tasks']) // 50 * 50))
+            for v in vs:
+                st.count('S:nproc:%s:%d' % (v['runner'], v['nproc']))
+            # monitors-only: the acceptor (K1: 5-7 s per 60-task trace) and the unmemoised denotations (K2 / K2c: 6-20 s) do
+            # not scale to these sizes; P (Python comparison of reports, exit code, data, DB, files, teardowns) does
+            shrink_left -= eval_group(c, vs, st, shrink_left, accept=False, den=False)
+            st.count('S:monitors_only_K1_K2_K2c_not_run', 1 + len(vs))
+            continue
         else:
             c = gen_b(rng)
         c['seed'] = seed
@@ -1551,6 +1774,14 @@ def plan(ctx, scale=1.0):
            [(rng.randrange(1 << 60), 'A', ['process']) for _ in range(n_a_proc)]
     msize = 3 if quick else 6
     main_b = [{'groups': main[i:i + msize], 'shrink_s': 8.0} for i in range(0, len(main), msize)]
+    # scale (audit #20): quick = a small sample of 50-80 tasks, thorough = 50-300 tasks, -n 2..8
+    n_s_thr = int((6 if quick else 40) * min(b, 2))
+    n_s_proc = int((2 if quick else 16) * min(b, 2))
+    rngs = (50, 150) if quick else (50, 300)
+    s_thr = [(rng.randrange(1 << 60), 'S', ['thread']) for _ in range(n_s_thr)]
+    s_proc = [(rng.randrange(1 << 60), 'S', ['process']) for _ in range(n_s_proc)]
+    pool_b += [{'groups': s_thr[i:i + 2], 'shrink_s': 6.0, 'scale': rngs} for i in range(0, len(s_thr), 2)]
+    main_b += [{'groups': s_proc[i:i + 2], 'shrink_s': 6.0, 'scale': rngs} for i in range(0, len(s_proc), 2)]
     n_data = int((300 if quick else 5000) * b)
     seeds = [rng.randrange(1 << 60) for _ in range(n_data)]
     data_b = [{'seeds': seeds[i:i + 150], 'failures': i == 0} for i in range(0, len(seeds), 150)]
